@@ -35,25 +35,13 @@ example : burstOk 5 0 [.enter 2, .pushU 3, .pushC 1, .pushU 5, .pop 4, .enter 0,
 /-- the witness script violates the side condition of the partial theorem -/
 example : burstOk 5 0 (stackprogOps 41 23 0) = false := by decide
 
-/-! ## signed overflow (C undefined behaviour) in reverse-index arithmetic
+/-! ## signed overflow (C undefined behaviour) in reverse-index arithmetic - all repaired
 
-Repaired meanwhile (positive theorems): F_RINDEX on arrays (`rindex_arr_no_ub`), push_lvalue_range
-(`lrangeBounds_no_ub`), and the buffer index `>=` (`index_logical_bound_buf`).  Still open: `size - ind` in
-push_indexed_lvalue (arrays, buffers; both halves) and `len - to` / `len - from` in f_range / f_extract_range. -/
+F_RINDEX on arrays (`rindex_arr_no_ub`), push_lvalue_range (`lrangeBounds_no_ub`), the buffer index `>=`
+(`index_logical_bound_buf`), and - since the `fix:` of C01-ub-index-signed-overflow - `size - ind` in
+push_indexed_lvalue and `len - to` / `len - from` in f_range / f_extract_range: the former full statement
+`index_arith_defined_Full` is now the theorem `index_arith_defined` (PropsWrap.lean), its witness is gone. -/
 
-/-- full statement: the index arithmetic of the modelled opcodes never leaves the range of its C type -/
-def index_arith_defined_Full : Prop :=
-  ∀ (k : Kind) (size n : Int), 0 ≤ size → size ≤ 65535 → inS64 n = true →
-    ∀ s, opLindex k true false size n 81 ≠ .error (.ub s) ∧ opErange {} k true size n ≠ .error (.ub s)
-
-theorem index_arith_defined_false : ¬ index_arith_defined_Full := by
-  intro h
-  exact (h .arr 5 (-9223372036854775808) (by decide) (by decide) (by decide) "lindex_arr").1 rfl
-
-/-- `a[<(-2^63)] = v`: `size - ind` overflows int64_t -/
-example : opLindex .arr true false 5 (-9223372036854775808) 81 = .error (.ub "lindex_arr") := rfl
-/-- `s[<(-2^63)..]`: `len - from` overflows int64_t -/
-example : opErange {} .str true 5 (-9223372036854775808) = .error (.ub "erange_str_from") := rfl
 /-- `s[0..2147483647] = x` is now rejected by the 64-bit pre-check (was: `++ind2` overflows int) -/
 example : opLrange {} .str false false 5 0 2147483647 0 = .error (.lpc msg_lrange_ind2_pre) := rfl
 /-- `a[<(-2^31)]` is now rejected by the guard (was: `size - (int)n` overflows int) -/
